@@ -304,3 +304,26 @@ func ZZ_C03_mixed() {
 	zzCompareWithRef(in)
 	rt.Reach("end")
 }
+
+// ZZ_C07_sparecap: the input is a prefix of a larger receive buffer (len < cap): lengths the
+// item declares are bounded by the bytes of the INPUT, not by the buffer behind it; the
+// verdict equals that of the same bytes in an exact-capacity slice.
+func ZZ_C07_sparecap() {
+	nlb, kind, extra := rt.Param("nlb"), rt.Param("kind"), rt.Param("extra")
+	item := []byte{byte(zzCodes[kind]<<2 | nlb)}
+	item = append(item, rt.Bytes("len", nlb)...)
+	item = append(item, rt.Bytes("p", 2)...)
+	exact := zzFrame(1, 1, 0, 1, []byte{0, 0, 0, 1}, item)
+	buf := make([]byte, len(exact)+extra)
+	for i := len(exact); i < len(buf); i++ {
+		buf[i] = 0x01 // stale bytes of an earlier frame
+	}
+	copy(buf, exact)
+	in := buf[:len(exact)]
+	_, okExact := Parse(exact)
+	rt.AllocBegin(64*len(in)+256, 16384*len(in)+1<<20, "alloc:linear-in-input")
+	_, ok := Parse(in)
+	rt.AllocEnd()
+	rt.Assert(ok == okExact, "sparecap:verdict-independent-of-capacity")
+	rt.Reach("end")
+}
